@@ -46,6 +46,24 @@ var wrNodeNames = map[syntax.NodeType]string{
 	syntax.NtNotoneloopatomic: "Notoneloopatomic", syntax.NtSetloopatomic: "Setloopatomic", syntax.NtUpdateBumpalong: "UpdateBumpalong",
 }
 
+// wrSet is the payload a set travels as: its Hash() bytes followed by the raw range endpoints of the set and
+// its subtracted sets (the hash writes ranges as UTF-8, which is not injective on surrogate code points; the
+// writer's set table distinguishes such sets since /repo 'fix: the set and string tables of the writer …').
+func wrSet(s *syntax.CharSet) string {
+	b := s.Hash()
+	xs := make([]int, 0, len(b)+8)
+	for _, c := range b {
+		xs = append(xs, int(c))
+	}
+	for d := s.VerifDump(); d != nil; d = d.Sub {
+		xs = append(xs, 1<<21)
+		for _, r := range d.Ranges {
+			xs = append(xs, int(r[0]), int(r[1]))
+		}
+	}
+	return core.SInts(xs)
+}
+
 func wrBytes(b []byte) string {
 	xs := make([]int, len(b))
 	for i, c := range b {
@@ -78,7 +96,7 @@ func wrNode(n *syntax.RegexNode, seen map[string]bool) string {
 		case syntax.NtOne, syntax.NtNotone:
 			return fmt.Sprintf("(char %d %s %s %d)", n.T, rtl, ci, n.Ch)
 		case syntax.NtSet:
-			return fmt.Sprintf("(set %s %s %s)", rtl, ci, wrBytes(n.Set.Hash()))
+			return fmt.Sprintf("(set %s %s %s)", rtl, ci, wrSet(n.Set))
 		case syntax.NtMulti:
 			return fmt.Sprintf("(multi %s %s %s)", rtl, ci, core.SInts(n.Str))
 		case syntax.NtRef:
@@ -86,7 +104,7 @@ func wrNode(n *syntax.RegexNode, seen map[string]bool) string {
 		case syntax.NtOneloop, syntax.NtNotoneloop, syntax.NtOnelazy, syntax.NtNotonelazy, syntax.NtOneloopatomic, syntax.NtNotoneloopatomic:
 			return fmt.Sprintf("(charloop %d %s %s %d %d %d)", n.T, rtl, ci, n.Ch, n.M, n.N)
 		case syntax.NtSetloop, syntax.NtSetlazy, syntax.NtSetloopatomic:
-			return fmt.Sprintf("(setloop %d %s %s %s %d %d)", n.T, rtl, ci, wrBytes(n.Set.Hash()), n.M, n.N)
+			return fmt.Sprintf("(setloop %d %s %s %s %d %d)", n.T, rtl, ci, wrSet(n.Set), n.M, n.N)
 		case syntax.NtConcatenate:
 			return "(concat)"
 		case syntax.NtAlternate:
@@ -165,7 +183,7 @@ func wrParts(code *syntax.Code) []string {
 	}
 	sets := make([]string, len(code.Sets))
 	for i, s := range code.Sets {
-		sets[i] = wrBytes(s.Hash())
+		sets[i] = wrSet(s)
 	}
 	inuse := make([]string, len(code.CaptureSlotInUse))
 	for i, b := range code.CaptureSlotInUse {
@@ -604,6 +622,9 @@ func wrCorpus() []wrCase {
 		wrCase{Pattern: `(?<01>a)(b)`, Order: true, Source: "corpus"},
 		wrCase{Pattern: `(a)|(b)\2`, Opts: int32(regexp2.ECMAScript), Source: "corpus"},
 		wrCase{Pattern: `(?:ab?)*c`, Source: "corpus"},
+		// D48: sets / strings that differ only in surrogate code points are different table entries
+		wrCase{Pattern: `[\uD800\uD900][\uD801\uD901]`, Source: "corpus"},
+		wrCase{Pattern: `x\uD800(?=x\uDC00)`, Source: "corpus"},
 		wrCase{Pattern: `(?<n>a)*?(?(n)b|c){2,5}(?>x+)(?<=y)`, Opts: int32(regexp2.RightToLeft), Source: "corpus"})
 	return cs
 }
